@@ -1696,7 +1696,9 @@ pub fn gen_case(plan: &Plan, tier: Tier, seed: u64, idx: u64) -> Case {
     }
     // systematic block for UTF-16 input (goes through the transcoding decoder): documents re-encoded
     // little- and big-endian x 2 entry points x 4 sweeps
-    const U16_DOCS: [&str; 8] = [
+    const U16_DOCS: [&str; 9] = [
+        // the mark written twice (the text begins with U+FEFF and the encoding adds its own)
+        "\u{feff}a: 1\n",
         "a: 1\n",
         "key: café 😀\n",
         "- a\n- 😀",
